@@ -38,6 +38,7 @@ structure Dflt where
 structure D where
   dirs : List (String × Dflt) := [("default", {})]
   cur : String := "default"
+  srvs : List (String × Conf × String) := []
 
 def parseAttrs (spec : String) : List Attr :=
   if spec == "-" then [] else
@@ -62,6 +63,40 @@ def matOf (d : Dflt) (s : Src) (which : Nat) : Option String :=
 
 def b2s (b : Bool) : String := if b then "accepts" else "rejects"
 
+/-- the outcome of one connection: `srv` finalized server configuration with the default directory it resolved at creation
+(`sdir`), the client resolving the current one (`cdir`) -/
+def connection (sdir cdir : Dflt) (srv : Conf) (host aa ca : String) (names : Bool) : String :=
+  let loadOk (dflt : Dflt) (c : Conf) : Bool := !(c.crl == .dflt && dflt.crl.isNone)
+  let addrName := if host.any Char.isAlpha then some host else none
+  match finalize (setAttrs initConn (parseAttrs ca)) with
+  | none => "server=ok client=connect:EINVAL accepted=none"
+  | some cli0 =>
+    if !loadOk cdir cli0 then "server=ok client=connect:EPROTO accepted=none" else
+    match hostnameOk cli0 addrName with
+    | none => "server=ok client=connect:EINVAL accepted=none"
+    | some cli =>
+      match finalize (setAttrs (inherit srv) (parseAttrs aa)) with
+      | none => "server=ok client=- accepted=accept:EINVAL"
+      | some acc0 =>
+        if !loadOk sdir acc0 then "server=ok client=- accepted=accept:EPROTO" else
+        match hostnameOk acc0 none with
+        | none => "server=ok client=- accepted=accept:EINVAL"
+        | some acc =>
+          -- OpenSSL completes the chain it sends with intermediates found in the sender's own trust store
+          let credFor (dflt : Dflt) (c : Conf) : Cred :=
+            let cr := credOf ((matOf dflt c.cert 0).getD "a1")
+            let own := trustOf (matOf dflt c.tc 1) none
+            match cr.inter with
+            | some i => { cr with sendsInter := cr.sendsInter || own.cas.contains i }
+            | none => cr
+          let cliAcc := accepts cli (trustOf (matOf cdir cli.tc 1) (matOf cdir cli.crl 2)) (credFor sdir acc)
+          let accAcc := accepts acc (trustOf (matOf sdir acc.tc 1) (matOf sdir acc.crl 2)) (credFor cdir cli)
+          -- both ends in the same TLS role cannot handshake at all
+          let roles := cli.tlsClient != acc.tlsClient
+          let sees := if names then s!" cli_sees={(credFor sdir acc).leaf} acc_sees={(credFor cdir cli).leaf}" else ""
+          s!"server=ok client={b2s (cliAcc && roles)} accepted={b2s (accAcc && roles)}{sees}"
+
+
 def step (d : D) (ws : List String) : D × String :=
   match ws with
   | "D" :: cert :: tc :: crl :: rest =>
@@ -71,40 +106,29 @@ def step (d : D) (ws : List String) : D × String :=
   | ["ENV", dir] => ({ d with cur := dir }, "ok")
   | ["M", _proto, host, sa, aa, ca] =>
     let dflt := (d.dirs.lookup d.cur).getD {}
-    -- a missing default CRL file makes the context fail to load: EPROTO
-    let loadOk (c : Conf) : Bool := !(c.crl == .dflt && dflt.crl.isNone)
     match finalize (setAttrs initServer (parseAttrs sa)) with
     | none => (d, "server=EINVAL")
     | some srv =>
-      if !loadOk srv then (d, "server=EPROTO") else
-      let addrName := if host.any Char.isAlpha then some host else none
-      -- btls_connect: finalize (EINVAL), load the context (EPROTO), hostname validation (EINVAL)
-      match finalize (setAttrs initConn (parseAttrs ca)) with
-      | none => (d, "server=ok client=connect:EINVAL accepted=none")
-      | some cli0 =>
-        if !loadOk cli0 then (d, "server=ok client=connect:EPROTO accepted=none") else
-        match hostnameOk cli0 addrName with
-        | none => (d, "server=ok client=connect:EINVAL accepted=none")
-        | some cli =>
-          match finalize (setAttrs (inherit srv) (parseAttrs aa)) with
-          | none => (d, "server=ok client=- accepted=accept:EINVAL")
-          | some acc0 =>
-            if !loadOk acc0 then (d, "server=ok client=- accepted=accept:EPROTO") else
-            match hostnameOk acc0 none with
-            | none => (d, "server=ok client=- accepted=accept:EINVAL")
-            | some acc =>
-              -- OpenSSL completes the chain it sends with intermediates found in the sender's own trust store
-              let credFor (c : Conf) : Cred :=
-                let cr := credOf ((matOf dflt c.cert 0).getD "a1")
-                let own := trustOf (matOf dflt c.tc 1) none
-                match cr.inter with
-                | some i => { cr with sendsInter := cr.sendsInter || own.cas.contains i }
-                | none => cr
-              let cliAcc := accepts cli (trustOf (matOf dflt cli.tc 1) (matOf dflt cli.crl 2)) (credFor acc)
-              let accAcc := accepts acc (trustOf (matOf dflt acc.tc 1) (matOf dflt acc.crl 2)) (credFor cli)
-              -- both ends in the same TLS role cannot handshake at all
-              let roles := cli.tlsClient != acc.tlsClient
-              (d, s!"server=ok client={b2s (cliAcc && roles)} accepted={b2s (accAcc && roles)}")
+      if srv.crl == .dflt && dflt.crl.isNone then (d, "server=EPROTO") else
+      (d, connection dflt dflt srv host aa ca false)
+  | ["SRV", id, _proto, sa] =>
+    let dflt := (d.dirs.lookup d.cur).getD {}
+    match finalize (setAttrs initServer (parseAttrs sa)) with
+    | none => ({ d with srvs := d.srvs.filter (fun x => x.1 != id) }, "server=EINVAL")
+    | some srv =>
+      if srv.crl == .dflt && dflt.crl.isNone then ({ d with srvs := d.srvs.filter (fun x => x.1 != id) }, "server=EPROTO") else
+      ({ d with srvs := (id, srv, d.cur) :: d.srvs.filter (fun x => x.1 != id) }, "server=ok")
+  | ["CON", _pid, sid, host, aa, ca] =>
+    match d.srvs.lookup sid with
+    | none => (d, "no-server")
+    | some (srv, sdirName) =>
+      -- the server socket keeps the file NAMES it resolved when it was created; their CONTENT is read per connection
+      let sdir := (d.dirs.lookup sdirName).getD {}
+      let cdir := (d.dirs.lookup d.cur).getD {}
+      (d, connection sdir cdir srv host aa ca true)
+  | ["CLOSESRV", id] => ({ d with srvs := d.srvs.filter (fun x => x.1 != id) }, "ok")
+  | ["CLOSE", _] => (d, "ok")
+  | ["PING", _] => (d, "-")
   | _ => (d, "bad-op")
 
 def main : IO Unit := runLoop step ({} : D)
